@@ -188,6 +188,21 @@ func modeWire(c *Ctx) {
 					s.hd.Add(p.Name, Canonical(k).Text)
 				}
 			}}
+			if oasKind(p.Schema) == "array" && p.In != "path" {
+				// several occurrences, some of them empty
+				cn := Canonical(k).Text
+				for name, vals := range map[string][]string{"arr-empty-first": {"", cn}, "arr-empty-mid": {cn, "", cn}, "arr-empty-last": {cn, ""}, "arr-empty-both-ends": {"", cn, ""}, "arr-three": {cn, cn, cn}, "arr-only-empties": {"", ""}} {
+					vals := vals
+					variants[name] = func(s *sup) {
+						switch p.In {
+						case "query":
+							s.q[p.Name] = vals
+						case "header":
+							s.hd[http.CanonicalHeaderKey(p.Name)] = vals
+						}
+					}
+				}
+			}
 			for i, t := range texts {
 				t := t
 				variants[fmt.Sprintf("lex%02d", i)] = func(s *sup) {
